@@ -384,6 +384,21 @@ func main() {
 			}
 		}
 	}
+	// a response AT the high watermark that nevertheless carries a message set (C11-D32): RequestTimedOut is reported,
+	// the set must be skipped, the next operation as on a fresh Conn
+	for _, v := range connfake.OpByName("fetch").Versions {
+		for _, magic := range []int8{1, 2} {
+			if magic == 2 && v < 4 {
+				continue
+			}
+			a := buildFetch(r, v, magic, 3, 1, 0, 0)
+			a.sh.HWM = a.sh.Offset
+			w := &connfake.W{}
+			a.op.Build(v, w, r, a.sh)
+			a.body = w.B
+			emit(a, follower(a))
+		}
+	}
 	// a response nobody asked for (foreign correlation id) is a framing error that does NOT close the Conn
 	// (io.ErrNoProgress, nothing consumed): every later operation must fail too — promptly.  Three operations in a row.
 	nchain := 0
